@@ -383,7 +383,7 @@ pub fn write_corpus(dir: &str, seed: u64, per: usize) -> usize {
 /// decoders, once from the valid-encoding corpus and once from an empty corpus. Fixed -runs and
 /// -seed; a crash artifact becomes a violation whose replay is the input itself.
 fn fuzz_campaign(ctx: &mut Ctx, _seeds: &[(Dec, Vec<u8>)]) {
-    let fuzz_dir = format!("{}/fuzz", crate::ctx::VERIF_DIR);
+    let fuzz_dir = format!("{}/fuzz", crate::ctx::verif_dir());
     let work = format!("{fuzz_dir}/work");
     let _ = std::fs::remove_dir_all(&work);
     let _ = std::fs::remove_dir_all(format!("{fuzz_dir}/artifacts"));
@@ -401,6 +401,8 @@ fn fuzz_campaign(ctx: &mut Ctx, _seeds: &[(Dec, Vec<u8>)]) {
             .arg(format!("-seed={}", ctx.seed.max(1)))
             .args(["-max_len=6000", "-len_control=0", "-rss_limit_mb=3000", "-malloc_limit_mb=512", "-timeout=20", "-print_final_stats=1"])
             .env("CARGO_NET_OFFLINE", "true")
+            // the harness' own target directory (set by run_check.sh) must not be shared with the sanitizer build
+            .env_remove("CARGO_TARGET_DIR")
             .output();
         match out {
             Ok(o) => {
